@@ -304,6 +304,10 @@ def fp_shapes():
         base = [("isnan", x), ("isinf", x), ("fabs", x), ("fneg", x), ("to_ieee", x), ("to_fp_bits", b, srt)]
         for cmp_ in fc.FP_CMP:
             base.append((cmp_, x, y))
+            # against every special constant, on either side: Z3 rewrites e.g. x < +oo into (in)equalities with NaN / oo
+            for bits in fc.special_bits(srt):
+                base.append((cmp_, x, ("fconst", bits, srt)))
+                base.append((cmp_, ("fconst", bits, srt), x))
         for rm in fc.RMS:
             for op in fc.FP_ARITH:
                 base.append((op, rm, x, y))
